@@ -83,7 +83,7 @@ def _worker(argv):
     libfuzzer_args = [argv[0]] + argv[5:]
     import atheris
 
-    with atheris.instrument_imports(include=['bumble']):
+    with atheris.instrument_imports(include=['bumble', 'checks']):
         import importlib
 
         mod = importlib.import_module(module)
